@@ -6,7 +6,9 @@ A *tree* (JSON) is a list of grid successors; every node is one of
   {"k": "P", "id": i, "p": w}                     PV inverter
   {"k": "E", "id": i, "p": w}                     EV charger
   {"k": "C", "id": i, "p": w}                     CHP
-The grid component has id 1.  A case is {"roots": [...], "fb": allow_fallback}.
+The grid component has id case["gid"] (default 1; 0 is a legal id).  A case is {"roots": [...], "fb": allow_fallback}.
+Component ids are a generated dimension: the grid may have id 0 (only the grid: Component.is_valid),
+or a larger id than its successors; ids do not grow with depth, some are sparse / large.  The model is id-agnostic.
 
 Implementation side: the real `_MicrogridComponentGraph` is built from the tree and put behind a
 stub connection manager; the real generators are run; the generated engine's *steps* (postfix) are
@@ -96,11 +98,16 @@ def wf_tree(roots) -> bool:
     return all(ok(r, None, True) for r in roots)
 
 
-def ids_unique(roots) -> bool:
+def gid_of(case) -> int:
+    g = case.get("gid")
+    return GRID_ID if g is None else g
+
+
+def ids_unique(roots, gid=GRID_ID) -> bool:
     """Component ids are distinct.  A battery may be connected to several inverters (shared batteries),
     so the same battery id may occur in several `bats` lists - but not twice in one, and never as the
     id of another component."""
-    ids, bats = [GRID_ID], set()
+    ids, bats = [gid], set()
     for n in walk(roots):
         ids.append(n["id"])
         if n["k"] == "B":
@@ -134,10 +141,10 @@ def _imports():
     return _IMP
 
 
-def components_of(roots):
+def components_of(roots, gid=GRID_ID):
     """(components, connections) of the tree, as the microgrid API would list them."""
     I = _imports()
-    comps, conns = [I.Component(GRID_ID, I.CC.GRID)], []
+    comps, conns = [I.Component(gid, I.CC.GRID)], []
 
     def add(n, parent):
         k = n["k"]
@@ -160,15 +167,15 @@ def components_of(roots):
                 comps.append(I.Component(b, I.CC.BATTERY))
                 conns.append(I.Connection(n["id"], b))
     for r in roots:
-        add(r, GRID_ID)
+        add(r, gid)
     return set(comps), set(conns)
 
 
-def build_graph(roots, graph=None):
+def build_graph(roots, graph=None, gid=GRID_ID):
     """A fresh `_MicrogridComponentGraph` for the tree, or - when an existing graph OBJECT is given -
     that same object taken to the tree's topology by `refresh_from(...)`."""
     I = _imports()
-    comps, conns = components_of(roots)
+    comps, conns = components_of(roots, gid)
     if graph is None:
         graph = I.Graph(comps, conns)
     else:
@@ -292,7 +299,8 @@ def run_generators(case, graph=None):
     With [graph], the existing graph object is refreshed to the tree instead of building a new one."""
     I = _imports()
     roots = case["roots"]
-    g = build_graph(roots, graph)
+    assert ids_unique(roots, gid_of(case)), case
+    g = build_graph(roots, graph, gid_of(case))
     I.cm._CONNECTION_MANAGER = SimpleNamespace(component_graph=g, api_client=None)
     rd = readings(roots)
     rd[NONEX] = None
@@ -636,15 +644,30 @@ def case_term(case, obs) -> str:
 
 
 # ----------------------------------------------------------------------------- generation
-def _fresh_ids(rng, n):
-    return rng.sample(range(2, 2 + 3 * n + 6), n)
+SPARSE_IDS = [255, 1000, 65535, 10 ** 6, 2 ** 31 - 1]
 
 
-def relabel(roots, rng, shuffle=True):
+def choose_gid(rng) -> int:
+    """The id of the grid component: often 1, often 0 (a legal id), sometimes larger than its successors'."""
+    return rng.choice([1, 1, 1, 0, 0, 0, 9, 1000])
+
+
+def _fresh_ids(rng, n, gid=GRID_ID):
+    """n distinct component ids (> 0: only the grid may be 0) different from the grid's, in no relation to
+    the depth (a meter may have a larger id than its devices), occasionally sparse / large."""
+    ids = rng.sample([i for i in range(1, 3 * n + 8) if i != gid], n)
+    if rng.random() < 0.3:
+        for j in rng.sample(range(n), min(n, rng.randint(1, 2))):
+            big = rng.choice([b for b in SPARSE_IDS if b != gid and b not in ids])
+            ids[j] = big
+    return ids
+
+
+def relabel(roots, rng, shuffle=True, gid=GRID_ID):
     """Give every component a fresh distinct id (random order, so that the iteration order of the
     implementation's sets varies), random powers and loads."""
     cnt = sum(1 + (len(n["bats"]) if n["k"] == "B" else 0) for n in walk(roots))
-    ids = _fresh_ids(rng, cnt) if shuffle else list(range(2, 2 + cnt))
+    ids = _fresh_ids(rng, cnt, gid) if shuffle else [i for i in range(1, cnt + 3) if i != gid][:cnt]
     it = iter(ids)
     single = len(roots) == 1
 
@@ -891,6 +914,15 @@ class TreeStream(Stream):
             [B(2, [3], 5)], [E(2, 5)], [P(2, -5)], [M(2, [], 5)], [C(2, 1)], [C(2, 1), E(3, 1)],
             [M(2, [B(3, [], 5), B(4, [5], 6)], 0), E(6, 1)],                        # inverter without battery (outside premise)
         ]
+        # numbering: grid id 0 / larger than its successors; component 0; ids not increasing with depth
+        for fb in (True, False):
+            for gid in (0, 50):
+                yield {"roots": [M(2, [P(3, -5), P(4, -6)], 12)], "fb": fb, "gid": gid}          # grid meter that looks like a PV meter
+                yield {"roots": [M(20, [M(3, [P(4, -5)]), B(5, [6], 7), M(2, [E(1, 3), E(8, 4)])], 12)], "fb": fb, "gid": gid}
+                yield {"roots": [M(7, [B(3, [4], 5), B(2, [1], 6)], 9)], "fb": fb, "gid": gid}
+                yield {"roots": [M(30, [E(3, 5)], 0), P(2, -4)], "fb": fb, "gid": gid}
+            yield {"roots": [M(5, [M(1, [P(4, -5), P(3, -1)]), E(2, 3)], 12)], "fb": fb, "gid": 0}   # component 1 is a PV meter
+            yield {"roots": [M(5, [B(1, [7], 5), P(3, -1)], 12), E(2, 3)], "fb": fb, "gid": 9, "bids": [7]}
         evm = [M(2, [M(9, [E(10, 5), E(11, 7), E(12, 11)]), M(3, [B(4, [5], 10), B(6, [7], 20)]), M(8, [P(13, -1), P(14, -2)])], 3)]
         for fb in (True, False):
             yield {"roots": evm, "fb": fb, "esel": [10, 11], "psel": [13], "bids": [5]}
@@ -925,12 +957,14 @@ class TreeStream(Stream):
         ex = self.exhaustive_quick if tier == "quick" else self.exhaustive_thorough
         for shape in all_trees(ex):
             for fb in (True, False):
-                yield with_subsets({"roots": share_batteries(relabel(shape, rng), rng, 0.4), "fb": fb}, rng)
+                gid = choose_gid(rng)
+                yield with_subsets({"roots": share_batteries(relabel(shape, rng, gid=gid), rng, 0.4), "fb": fb, "gid": gid}, rng)
         n = self.n_quick if tier == "quick" else self.n_thorough
         for _ in range(n):
             valid = rng.random() < 0.8
             shape = gen_tree(rng, valid=valid)
-            yield with_subsets({"roots": share_batteries(relabel(shape, rng), rng), "fb": rng.random() < 0.6}, rng)
+            gid = choose_gid(rng)
+            yield with_subsets({"roots": share_batteries(relabel(shape, rng, gid=gid), rng), "fb": rng.random() < 0.6, "gid": gid}, rng)
 
     def run_impl(self, case):
         return run_generators(case)
@@ -997,6 +1031,15 @@ class TreeStream(Stream):
             if any(dedicated(m) == "E" and 0 < sum(k["id"] in esel for k in m["kids"]) < len(m["kids"]) for m in meters):
                 out.append("ev_pool_subset_splits_a_dedicated_meter")
         out += sharing_labels(roots)
+        gid = gid_of(case)
+        out.append("grid_id=0" if gid == 0 else "grid_id=1" if gid == 1 else "grid_id_other")
+        allids = [n["id"] for n in nodes]
+        if any(i >= 255 for i in allids):
+            out.append("sparse_large_ids")
+        if any(k["id"] < m["id"] for m in meters for k in m["kids"]):
+            out.append("meter_id_above_a_successor_id")
+        if gid > min(allids):
+            out.append("grid_id_above_a_component_id")
         return out
 
 
@@ -1012,7 +1055,7 @@ def _fix_loads(roots, rng):
                 n["load"] = rng.choice([1, 7, 13, 40, 100, 250])
 
 
-def mutate_tree(roots, rng, graveyard):
+def mutate_tree(roots, rng, graveyard, gid=GRID_ID):
     """A neighbouring topology that re-uses the component ids: devices added / removed / moved below
     meters, a device changing its kind under the same id, a meter added / removed, the grid meter added /
     removed.  [graveyard] collects ids that disappeared, to be re-used (possibly in another role) later."""
@@ -1020,7 +1063,7 @@ def mutate_tree(roots, rng, graveyard):
     roots = copy.deepcopy(roots)
 
     def used():
-        u = {GRID_ID}
+        u = {gid}
         for n in walk(roots):
             u.add(n["id"])
             if n["k"] == "B":
@@ -1035,7 +1078,11 @@ def mutate_tree(roots, rng, graveyard):
             while i in graveyard:
                 graveyard.remove(i)
             return i
-        return next(i for i in range(2, 500) if i not in taken and i not in graveyard)
+        if rng.random() < 0.25:     # e.g. a grid meter that appears later with a larger id than what is below it
+            big = [b for b in [20, 99] + SPARSE_IDS if b not in taken and b not in graveyard]
+            if big:
+                return rng.choice(big)
+        return next(i for i in range(1, 500) if i not in taken and i not in graveyard)
 
     def power():
         return rng.choice([1, 2, 5, 11, 30, 75, 120, 400]) * rng.choice([1, 1, -1])
@@ -1169,20 +1216,21 @@ class RefreshStream(Stream):
         n = self.n_quick if tier == "quick" else self.n_thorough
         for _ in range(n):
             fb = rng.random() < 0.7
-            t = share_batteries(relabel(gen_tree(rng, max_nodes=7, valid=rng.random() < 0.9), rng), rng, 0.4)
+            gid = choose_gid(rng)
+            t = share_batteries(relabel(gen_tree(rng, max_nodes=7, valid=rng.random() < 0.9), rng, gid=gid), rng, 0.4)
             grave = []
-            steps = [with_subsets({"roots": t, "fb": fb}, rng)]
+            steps = [with_subsets({"roots": t, "fb": fb, "gid": gid}, rng)]
             for _k in range(rng.choice([1, 2, 2])):
-                t = mutate_tree(t, rng, grave)
-                steps.append(with_subsets({"roots": t, "fb": fb}, rng))
+                t = mutate_tree(t, rng, grave, gid)
+                steps.append(with_subsets({"roots": t, "fb": fb, "gid": gid}, rng))
             yield {"steps": steps}
 
     def run_impl(self, case):
         graph, out = None, []
         for st in case["steps"]:
-            assert ids_unique(st["roots"]), st
+            assert ids_unique(st["roots"], gid_of(st)), st
             if graph is None:
-                graph = build_graph(st["roots"])
+                graph = build_graph(st["roots"], None, gid_of(st))
             out.append(run_generators(st, graph))
         return out
 
@@ -1200,11 +1248,11 @@ class RefreshStream(Stream):
         steps = case["steps"]
         if len(steps) > 1:
             for i in range(len(steps)):
-                yield {"steps": steps[:i] + steps[i + 1:]}
+                yield {**case, "steps": steps[:i] + steps[i + 1:]}
         for i, st in enumerate(steps):
             for cand in shrink_tree(st):
-                if ids_unique(cand["roots"]):
-                    yield {"steps": steps[:i] + [cand] + steps[i + 1:]}
+                if ids_unique(cand["roots"], gid_of(cand)):
+                    yield {**case, "steps": steps[:i] + [cand] + steps[i + 1:]}
 
     def key(self, case, obs):
         def shape(n):
